@@ -575,9 +575,20 @@ func (w *watch) watch(fsw *fsnotify.Watcher, m *sync.Mutex, refresh func() error
 			_ = refresh()
 			m.Unlock()
 
-		case _, ok := <-watch.Errors:
+		case err, ok := <-watch.Errors:
 			if !ok {
 				return
+			}
+			if errors.Is(err, fsnotify.ErrEventOverflow) {
+				// events were lost: find what they were about by rescanning
+				m.Lock()
+				if w.watcher != fsw {
+					m.Unlock()
+					return
+				}
+				w.update(dirErrors)
+				_ = refresh()
+				m.Unlock()
 			}
 		}
 	}
